@@ -81,8 +81,8 @@ def replay(harness, config, case):
 
 def run(run):
     quick = run.tier == "quick"
-    depth = {"T1": 4, "T2": 4, "T3": 4, "T4": 4, "T5": 3, "T6": 4, "T7": 4, "TU": 2} if quick else \
-            {"T1": 6, "T2": 6, "T3": 6, "T4": 5, "T5": 5, "T6": 5, "T7": 5, "TU": 3}
+    depth = {"T1": 4, "T2": 4, "T3": 4, "T4": 4, "T5": 3, "T6": 4, "T7": 4, "T8": 3, "TU": 2} if quick else \
+            {"T1": 6, "T2": 6, "T3": 6, "T4": 5, "T5": 5, "T6": 5, "T7": 5, "T8": 5, "TU": 3}
     only = os.environ.get("VERIF_THEMES")
     classes = {}
     tot_s = tot_t = bc = bf = 0
@@ -90,7 +90,8 @@ def run(run):
     per = {}
     frag = {"T1": ["div", "td", "p", "a"], "T2": ["table", "tbody", "tr", "td", "caption", "colgroup", "select"], "T3": ["select", "table", "div"],
             "T4": ["html", "head", "body", "frameset", "noscript", "div"], "T5": [], "T6": ["p", "div", "textarea"],
-            "T7": ["title", "textarea", "script", "style", "xmp", "plaintext", "div", "noscript"], "TU": [c for c in tw.CTX]}
+            "T7": ["title", "textarea", "script", "style", "xmp", "plaintext", "div", "noscript"], "T8": ["div", "p"],
+            "TU": [c for c in tw.CTX]}
     for theme, d in depth.items():
         if only and theme not in only.split(","):
             continue
